@@ -94,8 +94,16 @@ def tables_and_cursor(rep, idx, spec, table, obj, named):
               f"inserted range is {ir.show(R)[:100]}")
     st = c.stores.get(ir.show(c.parse(f"self.{table}[id({obj})]")))
     ok = st is not None and st[0][0] == 'tuple' and len(st[0][1]) == 3 and st[0][1][0] == ('name', obj) and st[0][1][2] == R
-    rep.check(ok, "C02.4", site, f"the table entry records the same object and the same range",
-              f"self.{table}[id({obj})] = {ir.show(st[0])[:120] if st else None}")
+    wrong = None
+    if st is not None and st[0][0] == 'tuple' and len(st[0][1]) == 3:
+        if st[0][1][0] != ('name', obj):
+            wrong = "another object is recorded"
+        elif st[0][1][2] != R:
+            wrong = "the range recorded is not the range inserted"
+    elif st is None:
+        wrong = "no table entry is made"
+    rep.form(ok, "C02.4", site, f"the table entry records the same object and the same range",
+             f"self.{table}[id({obj})] = {ir.show(st[0])[:120] if st else None}", wrong=wrong)
     cur = c.stores.get("self._next_addr")
     if cur is None:
         rep.bad("C02.4", site, "placement cursor advances to the end of the new item", "self._next_addr is not assigned")
@@ -128,7 +136,7 @@ def tables_and_cursor(rep, idx, spec, table, obj, named):
 
 
 def compute_range(rep, idx):
-    c = get_fn(idx, "MemoryMap._compute_addr_range")
+    c = get_fn(idx, "MemoryMap._compute_addr_range", no_inline=("_align_up",))
     fi = c.fi
     site = fi.site
     rep.analysed(site)
@@ -230,7 +238,7 @@ def alignment(rep, idx):
     ok = bool(calls) and all(kwarg(x, 'alignment') in (c.norm(eff), c.norm(eff2)) for x in calls)
     rep.check(ok, "C02.8", site, "effective alignment == max(requested, map alignment), or the map alignment when none is requested",
               f"_compute_addr_range(alignment={ir.show(kwarg(calls[0], 'alignment'))[:120] if calls else None})")
-    a = get_fn(idx, "MemoryMap.align_to")
+    a = get_fn(idx, "MemoryMap.align_to", no_inline=("_align_up",))
     st = a.stores.get("self._next_addr")
     ok = st is not None and st[0] == a.parse("self._align_up(self._next_addr, max(alignment, self.alignment))")
     rep.check(ok, "C02.8", a.fi.site, "align_to() advances the cursor to a multiple of 2**max(alignment, map alignment)",
@@ -297,11 +305,17 @@ def intervals(rep, idx):
     ok = s is not None and t is not None and k is not None and len(s[2]) == 2 and len(t[2]) == 2 and len(k[2]) == 2 and \
         s[2][1] == ins.parse("key.start") and t[2][1] == ins.parse("key.stop") and k[2][1] == ('name', 'key') and \
         k[2][0] in (s[2][0], t[2][0]) and _bisect_on(s[2][0], "_starts", "start") and _bisect_on(t[2][0], "_stops", "stop")
-    rep.check(bool(ok), "C02.6", ins.fi.site, "insert(): starts / stops / keys receive the key at the position its own endpoint sorts to",
-              "the three parallel lists would fall out of step")
+    wrong = None
+    if s is not None and t is not None and k is not None and len(s[2]) == 2 and len(t[2]) == 2 and len(k[2]) == 2:
+        if s[2][1] != ins.parse("key.start") or t[2][1] != ins.parse("key.stop"):
+            wrong = "an endpoint list receives the wrong endpoint of the key"
+        elif k[2][0] not in (s[2][0], t[2][0]):
+            wrong = "the key list is indexed differently from the endpoint lists: the three parallel lists fall out of step"
+    rep.form(bool(ok), "C02.6", ins.fi.site, "insert(): starts / stops / keys receive the key at the position its own endpoint sorts to",
+             "parallel sorted lists", wrong=wrong)
     st = ins.stores.get("self._values[key]")
-    rep.check(st is not None and st[0] == ('name', 'value'), "C02.6", ins.fi.site, "insert(): value stored under the key", "missing",
-              nontrivial=False)
+    rep.form(st is not None and st[0] == ('name', 'value'), "C02.6", ins.fi.site, "insert(): value stored under the key", "",
+             nontrivial=False)
     # membership test in get(): L <= P and P < U
     g = get_fn(idx, "_RangeMap.get")
     fi = g.fi
@@ -345,8 +359,11 @@ def ordering(rep, idx):
     items = rm.method("items")
     ci = get_fn(idx, items)
     loops = list(ci.t.loops.values())
-    ok = len(loops) == 1 and ci.norm(loops[0].iter) == ci.parse("self._keys") and not loops[0].reversed
-    rep.check(ok, "C02.7", items.site, "_RangeMap.items() iterates the sorted key list", f"iterates {[ir.show(ci.norm(l.iter)) for l in loops]}")
+    follows = len(loops) == 1 and ir.mentions(ci.norm(loops[0].iter), ci.parse("self._keys")) and not loops[0].reversed and \
+        not any(x[0] == 'call' and x[1] in (('name', 'sorted'), ('name', 'reversed'), ('name', 'set')) for x in ir.walk(ci.norm(loops[0].iter)))
+    rep.form(follows, "C02.7", items.site, "_RangeMap.items() follows the sorted key list", f"iterates {[ir.show(ci.norm(l.iter)) for l in loops]}",
+             wrong="iteration order is reversed / re-sorted" if loops and (loops[0].reversed or any(
+                 x[0] == 'call' and x[1] in (('name', 'sorted'), ('name', 'reversed')) for x in ir.walk(ci.norm(loops[0].iter)))) else None)
     src_items = ir.parse("self._ranges.items()")
     for name in ("resources", "windows", "all_resources"):
         fi = idx.find_func(f"MemoryMap.{name}")
